@@ -345,6 +345,140 @@ func runC19(r *Run) {
 		}
 		tr.Done()
 	}
+	// ---- the setters hand the type on as given
+	{
+		st := r.Rule("C19.settype", "MessageType.AddTo passes its receiver to SetType unchanged and SetType stores its argument into Message.Type unchanged (whole value, no field rewritten on the way): the type a setter or Build encodes is the one that was asked for, for every method and class", 2)
+		msg := p.Named("Message")
+		setType := p.Meth("Message", "SetType")
+		addTo := p.MethodOf(mt, "AddTo")
+		// v is the parameter pa of fn as given: pa itself, or a load of its spill slot that nothing else writes
+		asGiven := func(fn *ssa.Function, v ssa.Value, pa *ssa.Parameter) bool {
+			if v == ssa.Value(pa) {
+				return true
+			}
+			ld, ok := v.(*ssa.UnOp)
+			if !ok || ld.Op != token.MUL {
+				return false
+			}
+			al, ok := ld.X.(*ssa.Alloc)
+			if !ok {
+				return false
+			}
+			okAll := false
+			for _, u := range *al.Referrers() {
+				switch y := u.(type) {
+				case *ssa.Store:
+					if y.Addr == ssa.Value(al) && y.Val == ssa.Value(pa) {
+						okAll = true
+					} else {
+						return false
+					}
+				case *ssa.FieldAddr:
+					for _, u2 := range *y.Referrers() {
+						if s2, isS := u2.(*ssa.Store); isS && s2.Addr == ssa.Value(y) {
+							return false // a field of the copy is rewritten
+						}
+					}
+				}
+			}
+			return okAll
+		}
+		if addTo != nil && setType != nil && len(addTo.Params) >= 1 {
+			r.Analysed(addTo)
+			n := 0
+			eachInstr(addTo, func(b *ssa.BasicBlock, i int, in ssa.Instruction) {
+				c, ok := in.(*ssa.Call)
+				if !ok || !callsFn(c, setType) || len(c.Call.Args) != 2 {
+					return
+				}
+				n++
+				st.Instance(fnName(addTo)+"|SetType", true, nil)
+				if !asGiven(addTo, c.Call.Args[1], addTo.Params[0]) {
+					st.Violation(addTo, instrPos(c), "SetType("+exprDepth(c.Call.Args[1], 0)+")", "the type handed to SetType is not the receiver as given: for some method/class the message is typed differently from what the setter was asked for, so what is encoded does not decode to the requested type")
+				}
+			})
+			if n == 0 {
+				st.Fail(fnName(addTo), "no call of SetType found in MessageType.AddTo")
+			}
+		} else {
+			st.Fail("MessageType.AddTo / Message.SetType", "not found")
+		}
+		if setType != nil && msg != nil && len(setType.Params) == 2 {
+			r.Analysed(setType)
+			typeF := FieldVar(msg, "Type")
+			n := 0
+			for _, a := range fieldAccesses(setType, typeF) {
+				if a.Kind != "store" {
+					continue
+				}
+				n++
+				st.Instance(fnName(setType)+"|store Type", true, nil)
+				if !asGiven(setType, a.Instr.(*ssa.Store).Val, setType.Params[1]) {
+					st.Violation(setType, instrPos(a.Instr), "Message.Type = "+exprDepth(a.Instr.(*ssa.Store).Val, 0), "SetType does not store the type it was given")
+				}
+			}
+			if n == 0 {
+				st.Fail(fnName(setType), "SetType does not store Message.Type")
+			}
+		}
+		st.Done()
+	}
+	// ---- every successful decode passes the type word through ReadValue
+	if dm := p.Meth("Message", "Decode"); dm != nil {
+		dc := r.Rule("C19.decode", "on every path of Decode that reports success, ReadValue has been called on the message's Type with the 16-bit word at bytes [0:2) of Raw: the decoded type is a function of the received header alone, never a value kept from an earlier use of the message", 1)
+		r.Analysed(dm)
+		isTypeWord := func(v ssa.Value) bool {
+			v = stripConvs(canonPhi(stripConvs(v)))
+			c, ok := v.(*ssa.Call)
+			if !ok {
+				return false
+			}
+			name, _, buf, okA := accessorCall(c)
+			if !okA || name != "Uint16" {
+				return false
+			}
+			sl, isSl := buf.(*ssa.Slice)
+			if !isSl {
+				return false
+			}
+			lo, hi := int64(0), int64(-1)
+			if sl.Low != nil {
+				lo, _ = constInt(sl.Low)
+			}
+			if sl.High != nil {
+				hi, _ = constInt(sl.High)
+			}
+			return lo == 0 && hi == 2
+		}
+		idx := errorResultIndex(dm)
+		rep := map[*ssa.Return]bool{}
+		nSucc := 0
+		q := &PathQuery{P: p, Fn: dm}
+		q.Step = func(in ssa.Instruction, deferred bool, st uint64, c *PathCtx) (uint64, bool) {
+			if cl, ok := in.(*ssa.Call); ok && callsFn(cl, readFn) && len(cl.Call.Args) == 2 {
+				if isTypeWord(c.Resolve(cl.Call.Args[1])) || isTypeWord(cl.Call.Args[1]) {
+					return st | 1, false
+				}
+			}
+			return st, false
+		}
+		q.AtReturn = func(ret *ssa.Return, st uint64, c *PathCtx) {
+			if idx < 0 || c.NilState(ret.Results[idx]) == -1 {
+				return
+			}
+			nSucc++
+			if st&1 == 0 && !rep[ret] {
+				rep[ret] = true
+				dc.ViolationPath(dm, instrPos(ret), "success without ReadValue of the type word", "Decode reports success on a path that did not decode the type word: the message keeps the type of its previous use (a reused message that was retyped in between decodes the same header to a different type)", c.Witness(dm, ret))
+			}
+		}
+		q.Run()
+		dc.Instance(fnName(dm), true, map[string]int{"success_paths": nSucc})
+		if nSucc == 0 || q.Exhausted {
+			dc.Fail(fnName(dm), "no success path of Decode explored (or exploration exhausted): undecided")
+		}
+		dc.Done()
+	}
 	// the type value reaches bytes [0:2) of the header unchanged (shared with C03)
 	r.Borrow("C03", map[string]string{"C03.header": "C19.header"})
 }
